@@ -990,7 +990,7 @@ impl Prop for C07 {
         "C07"
     }
     fn rule(&self) -> &'static str {
-        "exhaustive: every program of length<=3 (thorough: <=4 in release) over a 51-symbol alphabet (all operand-free arithmetic/stack/compare ops, stack_value/piece/reg, skip/bra +-k, boundary constants for the address size) x address sizes 1/2/4/8; decode of every opcode byte 0x00..0xff with generated operands; random programs (<=24 ops, grammar with resolved and raw branch targets, pieces, calls with nested at_location programs, entry values, typed ops) with a scripted answer source for every Requires* kind. Oracle: independent decoder + DWARF stack machine (exprvm.rs); requests, pieces, value_result, error kinds compared; iteration limits {0,1,Mmin-1,Mmin,Mmax,Mmax+1,large}; fixed-capacity storages judged by refinement. Non-trivial = >=3 operations executed and (a suspension, a taken branch, or >=2 pieces); distinct by choice string / by program for enumerations."
+        "exhaustive: every program of length<=3 (thorough: <=4 in release) over a 51-symbol alphabet (all operand-free arithmetic/stack/compare ops, stack_value/piece/reg, skip/bra +-k, boundary constants for the address size) x address sizes 1/2/4/8; decode of every opcode byte 0x00..0xff with generated operands; random programs (<=24 ops, grammar with resolved and raw branch targets, pieces, calls with nested at_location programs, entry values, typed ops) with a scripted answer source for every Requires* kind. Oracle: independent decoder + DWARF stack machine (exprvm.rs); requests, pieces, value_result, error kinds compared; iteration limits {0,1,Mmin-1,Mmin,Mmax,Mmax+1,large}; fixed-capacity storages judged by refinement. Non-trivial = >=3 operations executed and (a suspension, a taken branch, or >=2 pieces); distinct by choice string / by program for enumerations. Later additions: typed programs ending in DW_OP_convert / DW_OP_reinterpret to any type with operands at the ends of the source type range; MIN / -1 wraps; the std Iterator view of the operation iterator."
     }
     fn assumptions(&self) -> Vec<&'static str> {
         vec![
